@@ -40,9 +40,9 @@ package join
 //@ o-fork: when nresults(typs[0])>=2 nilable result0(typs[0])
 //@ o-fork: when nresults(typs[0])>=3 nilable result1(typs[0])
 //@ serves: join len=2 kind=Signature typs=typs
-//@ o-sig: when nresults(typs[0])=1 (f func() error, err error) (rerr error)
-//@ o-sig: when nresults(typs[0])=2 (f func() ($result0(typs[0]), error), err error) (r0 $result0(typs[0]), rerr error)
-//@ o-sig: when nresults(typs[0])=3 (f func() ($result0(typs[0]), $result1(typs[0]), error), err error) (r0 $result0(typs[0]), r1 $result1(typs[0]), rerr error)
+//@ o-sig: when nresults(typs[0])=1 (f $typs[0], err error) (rerr error)
+//@ o-sig: when nresults(typs[0])=2 (f $typs[0], err error) (r0 $result0(typs[0]), rerr error)
+//@ o-sig: when nresults(typs[0])=3 (f $typs[0], err error) (r0 $result0(typs[0]), r1 $result1(typs[0]), rerr error)
 //@ o-requires: f != nil
 //@ o-ensures: when nresults(typs[0])=1 [error-first] (err != nil ==> rerr == err && traceLen() == 0) && (err == nil ==> rerr == result(0, f) && traceLen() == 1 && called(0, f))
 //@ o-ensures: when nresults(typs[0])=2 [error-first] (err != nil ==> rerr == err && r0 == Zero(result0(typs0)) && traceLen() == 0) && (err == nil ==> r0 == result(0, f) && rerr == result(1, f) && traceLen() == 1 && called(0, f))
